@@ -75,6 +75,12 @@ Fixpoint slashslash (s : bytes) : bytes :=
   | [] => []
   end.
 
+(* strings.ToLower on ASCII *)
+Definition lower_char (c : ascii) : ascii :=
+  let n := N_of_ascii c in
+  if ((65 <=? n) && (n <=? 90))%N then ascii_of_N (n + 32) else c.
+Definition lower (s : bytes) : bytes := map lower_char s.
+
 Fixpoint join (sep : bytes) (l : list bytes) : bytes :=
   match l with
   | [] => []
